@@ -1510,6 +1510,10 @@ impl GrafeoDB {
                 .tx_manager
                 .last_assigned_tx_id()
                 .unwrap_or_else(|| self.tx_manager.begin());
+            // Records written through the API are complete operations: mark them
+            // committed first, as close() does, otherwise recovery discards everything
+            // logged before the checkpoint marker as an unfinished transaction.
+            wal.log(&WalRecord::TxCommit { tx_id })?;
             wal.checkpoint(tx_id, epoch)?;
             wal.sync()?;
         }
